@@ -361,7 +361,7 @@ def run(ctx, extra_defs=()):
     fr = q.false_returns(cx)
     ctx.check(len(fr) >= 1, R9, 'canceler:can-skip', 'no skip path (informational)', cx.where)
     for k, r in enumerate(fr):
-        g1 = q.call_gate(cx, lambda i: q.short_of(cx.callee(i)) == 'empty' and (q.obj_field(cx, i) or '').endswith('event_loop_impl::dispatch_queue_'), True)
+        g1 = q.empty_gate(cx, lambda i: (q.obj_field(cx, i) or '').endswith('event_loop_impl::dispatch_queue_'))
         ctx.check(cx.only_through(r, g1), R9, 'canceler:skip#%d:only-if-queue-empty' % k, 'a cancel can be dropped while a registration for the descriptor may still be queued', cx.loc(r))
 
         def noreg(fld):
